@@ -147,6 +147,16 @@ def oracle(seq, out) -> str | None:
                 return f"refused-operation-changed-tree:{k}:{hex(code)}"
         if k in ("read", "size", "exists", "isdir") and changed:
             return f"query-changed-tree:{k}"
+        if changed:
+            # an operation changes only the paths it names (a recursive removal: those below it)
+            from trace import parse_fs
+            before, after = parse_fs(prev), parse_fs(snap)
+            named = [x for x in op[1:] if isinstance(x, str) and x.startswith("/")]
+            for q in set(before) | set(after):
+                if before.get(q, "missing") != after.get(q, "missing"):
+                    ok = q in named or (k == "rmdir" and op[2] == 1 and q.startswith(op[1] + "/"))
+                    if not ok:
+                        return f"operation-changed-unnamed-path:{k}"
         if k == "write" and res == "ok" and op[2] != "-":
             # read-back identity and frame, from the snapshots
             from trace import parse_fs
